@@ -84,6 +84,12 @@ class C06(Prop):
         for _, c in c14.PROP.gen(Ctx(ctx.tier, ctx.seed))[: ctx.pick(60, 300)]:
             if c["mode"] == "same" and c["buckets"] and not c.get("both_profiles"):
                 out.append(("migrated-then-deleted", {"k": "migrated", "c14": {**c, "emptied": True}}))
+        # an AUTO-COMMITTING store created at its default location in a data directory that holds a legacy database: with
+        # buckets, without any, or with buckets that were all deleted again - whatever the migration did on the way, every
+        # completed operation of the new store is durable
+        for i in range(ctx.pick(9, 60)):
+            out.append(("eager-upgrade", {"k": "eager-upgrade", "testing": i % 2 == 0, "legacy": ["none", "empty", "emptied", "populated"][i % 4],
+                                          "n": rng.randint(2, 6), "seed": rng.randrange(1 << 30)}))
         # crash runs: every kill point of a few histories; the first two are directed: (a) a bucket holding more events
         # than the commit threshold is deleted while writes are buffered (a commit between its two DELETEs would split it),
         # (b) a bulk insert mixing upserts and new events, and a rejected replace, are followed by more operations
@@ -119,6 +125,71 @@ class C06(Prop):
                     out.append(("crash", {"k": "crash", "backend": be, "kill": k, **hh}))
         return out
 
+    def _impl_eager_upgrade(self, case):
+        import os
+        import random
+        import shutil
+
+        import aw_datastore.storages.peewee as pw
+        from aw_datastore import Datastore
+        from aw_datastore.storages import PeeweeStorage, SqliteStorage
+
+        from ..common import mk_event, us_to_dt
+
+        rng = random.Random(case["seed"])
+        d = storelib.tmp_root()
+        old_env = os.environ.get("XDG_DATA_HOME")
+        os.environ["XDG_DATA_HOME"] = d
+        try:
+            if case["legacy"] != "none":
+                legacy = PeeweeStorage(testing=case["testing"])
+                if case["legacy"] in ("emptied", "populated"):
+                    for b in ("old0", "old1"):
+                        legacy.create_bucket(b, "t", "c", "h", us_to_dt(storegen.T0).isoformat(), name=None, data=None)
+                        legacy.insert_many(b, [mk_event(storegen.rand_ev(rng)) for _ in range(3)])
+                if case["legacy"] == "emptied":
+                    for b in ("old0", "old1"):
+                        legacy.delete_bucket(b)
+                legacy.db.close()
+            ds = Datastore(SqliteStorage, testing=case["testing"], enable_lazy_commit=False)
+            st = ds.storage_strategy
+            path = os.path.join(d, "activitywatch", "aw-server", "sqlite" + ("-testing" if case["testing"] else "") + ".v1.db")
+            steps = []
+
+            def observe(what):
+                own = commitlib.norm_view(commitlib.raw_dump(st.conn, "sqlite"))
+                sec = commitlib.norm_view(commitlib.second_view(path))
+                steps.append([what, own == sec, own if own != sec else None, sec if own != sec else None])
+
+            observe("constructed")
+            ds.create_bucket("new", "t", "c", "h", created=us_to_dt(storegen.T0))
+            observe("create_bucket")
+            ids = []
+            for i in range(case["n"]):
+                e = ds["new"].insert(mk_event(storegen.rand_ev(rng)))
+                ids.append(e.id)
+                observe(f"insert #{i}")
+            ds["new"].replace_last(mk_event([None, storegen.T0 + 99 * 1_000_000, 1000, storegen.LABELS[0]]))
+            observe("replace_last")
+            ds["new"].replace(ids[0], mk_event(storegen.rand_ev(rng)))
+            observe("replace")
+            ds["new"].delete(ids[-1])
+            observe("delete")
+            ds["new"].insert([mk_event(storegen.rand_ev(rng)) for _ in range(3)])
+            observe("bulk insert")
+            st.conn.close()
+            try:
+                pw._db.close()
+            except Exception:
+                pass
+            return {"steps": steps}
+        finally:
+            if old_env is None:
+                os.environ.pop("XDG_DATA_HOME", None)
+            else:
+                os.environ["XDG_DATA_HOME"] = old_env
+            shutil.rmtree(d, ignore_errors=True)
+
     def _count_statements(self, be, h):
         from ..common import import_repo
 
@@ -141,6 +212,8 @@ class C06(Prop):
     def impl(self, case):
         if case["k"] == "view":
             return commitlib.run_history(case)
+        if case["k"] == "eager-upgrade":
+            return self._impl_eager_upgrade(case)
         if case["k"] == "migrated":
             from . import c14
 
@@ -207,7 +280,7 @@ class C06(Prop):
     def model_lines(self, case, io):
         if case["k"] == "view":
             return commitlib.model_lines(case, io)
-        if case["k"] == "migrated" or case["backend"] != "sqlite":
+        if case["k"] in ("migrated", "eager-upgrade") or case["backend"] != "sqlite":
             return []
         j = io["op"]
         L = [f"commit reset {1 if case.get('lazy', True) else 0} {io['start']}"]
@@ -221,7 +294,7 @@ class C06(Prop):
     def model_out(self, case, answers, io):
         if case["k"] == "view":
             return commitlib.model_out(case, answers, io)
-        if case["k"] == "migrated" or case["backend"] != "sqlite":
+        if case["k"] in ("migrated", "eager-upgrade") or case["backend"] != "sqlite":
             return None
         j = io["op"]
         base = 1 + max(j, 0)
@@ -252,6 +325,12 @@ class C06(Prop):
     # ---- the property ------------------------------------------------------------------------------------
     def oracle(self, case, out):
         if out is None or "expected" in out:
+            return None
+        if case["k"] == "eager-upgrade":
+            for what, ok, own, sec in out["steps"]:
+                if not ok:
+                    return (f"store without lazy commit, created beside a legacy database ({case['legacy']}): after {what} returned, a second "
+                            f"connection sees {json.dumps(sec)[:300]}, the store itself {json.dumps(own)[:300]}")
             return None
         if case["k"] == "migrated":
             if out.get("after_delete_and_reopen"):
@@ -330,7 +409,7 @@ class C06(Prop):
         return f"crash inside op {j}: reopened database differs from the state before and after the operation"
 
     def nontrivial(self, case, out):
-        if case["k"] in ("crash", "migrated"):
+        if case["k"] in ("crash", "migrated", "eager-upgrade"):
             return True
         return any(s["own"] != s["second"] for s in out["steps"])
 
@@ -338,6 +417,8 @@ class C06(Prop):
         return json.dumps(case, sort_keys=True)
 
     def features(self, case, out):
+        if case["k"] == "eager-upgrade":
+            return [f"eager-upgrade:legacy-{case['legacy']}"]
         if case["k"] == "migrated":
             return [f"migrated-store:{len(out['migrated'])}-buckets"]
         if case["k"] == "crash":
